@@ -10,6 +10,17 @@
 // Recorder.BuildReport(now, 1200) and write the report to the bound RTCPWriter.
 // The same history as Add/Build operations is compared with the same model and
 // judged by the same oracle.
+//
+// Round 5. (a) The value delivered on the mock ticker's channel is chosen
+// independently of the mock clock (stale, ahead, before an arrival, another
+// epoch): the report time is the reading of the configured clock (SenderNow).
+// The events (clock settings, packets, ticker values) are printed too and the
+// Coq sender model (Model/Rfc8888Sender.v) must derive the same operations.
+// (b) Every report object handed out (returned by BuildReport / written to the
+// RTCP writer) is KEPT; a deep copy (projection incl. marshalled length) is taken
+// at hand-over, and the kept objects are projected and marshalled AGAIN after
+// the whole history ("late"): a report states what had arrived when it was
+// built, whatever is built or received later.
 package main
 
 import (
@@ -35,6 +46,7 @@ type op struct {
 	Seq  uint16 `json:"seq,omitempty"`
 	ECN  uint8  `json:"ecn,omitempty"`
 	Max  int64  `json:"max,omitempty"` // maxSize (build) or per-stream budget (raw)
+	Tk   *int64 `json:"tk,omitempty"`  // api build: value delivered on the ticker channel, ns (absent: T)
 }
 
 type blockOut struct {
@@ -51,7 +63,8 @@ type repOut struct {
 
 type c08Case struct {
 	Ops  []op     `json:"ops"`
-	Outs []repOut `json:"outs"`
+	Outs []repOut `json:"outs"`           // every report as it was when handed over
+	Late []repOut `json:"late"`           // the same report objects, read and marshalled after the whole history
 	API  bool     `json:"api,omitempty"` // driven through the SenderInterceptor (ticker loop, packet channel)
 }
 
@@ -78,22 +91,31 @@ func project(rep *rtcp.CCFeedbackReport) repOut {
 
 // run drives the implementation; a panic is reported as an implementation failure.
 func run(ops []op) (c c08Case, fail *cq.ImplFailure) {
-	c = c08Case{Ops: ops, Outs: []repOut{}}
+	c = c08Case{Ops: ops, Outs: []repOut{}, Late: []repOut{}}
 	defer func() {
 		if r := recover(); r != nil {
 			fail = &cq.ImplFailure{Kind: "panic", Detail: fmt.Sprint(r), Case: c}
 		}
 	}()
 	rec := rfc8888.NewRecorder()
+	var kept []*rtcp.CCFeedbackReport // every report handed out, in order
 	for _, o := range ops {
+		var rep *rtcp.CCFeedbackReport
 		switch o.K {
 		case "add":
 			rec.AddPacket(time.Unix(0, o.T), o.SSRC, o.Seq, o.ECN)
+
+			continue
 		case "build":
-			c.Outs = append(c.Outs, project(rec.BuildReport(time.Unix(0, o.T), int(o.Max))))
+			rep = rec.BuildReport(time.Unix(0, o.T), int(o.Max))
 		default:
-			c.Outs = append(c.Outs, project(rec.VerifBuildRaw(time.Unix(0, o.T), o.Max)))
+			rep = rec.VerifBuildRaw(time.Unix(0, o.T), o.Max)
 		}
+		kept = append(kept, rep)
+		c.Outs = append(c.Outs, project(rep)) // deep copy at hand-over
+	}
+	for _, rep := range kept { // the caller reads / marshals its reports late
+		c.Late = append(c.Late, project(rep))
 	}
 
 	return c, nil
@@ -127,7 +149,7 @@ const apiWait = 10 * time.Second
 // the mock ticker at mock time T (BuildReport(now, 1200), written to the RTCPWriter).
 // The history must start with an add (the loop starts its ticker after the first packet).
 func runAPI(ops []op) (c c08Case, fail *cq.ImplFailure) { //nolint:cyclop
-	c = c08Case{Ops: ops, Outs: []repOut{}, API: true}
+	c = c08Case{Ops: ops, Outs: []repOut{}, Late: []repOut{}, API: true}
 	defer func() {
 		if r := recover(); r != nil {
 			fail = &cq.ImplFailure{Kind: "panic", Detail: fmt.Sprint(r), Case: c}
@@ -151,11 +173,18 @@ func runAPI(ops []op) (c c08Case, fail *cq.ImplFailure) { //nolint:cyclop
 	if err != nil {
 		return c, &cq.ImplFailure{Kind: "api", Detail: err.Error(), Case: c}
 	}
-	reports := make(chan *rtcp.CCFeedbackReport, 1)
+	// the RTCP writer queues what it is given (pointer kept) and marshals later;
+	// a deep copy of the report as handed over is taken inside Write
+	type handed struct {
+		rep *rtcp.CCFeedbackReport
+		at  repOut
+	}
+	reports := make(chan handed, 1)
+	var kept []*rtcp.CCFeedbackReport
 	icpt.BindRTCPWriter(interceptor.RTCPWriterFunc(func(pkts []rtcp.Packet, _ interceptor.Attributes) (int, error) {
 		for _, p := range pkts {
 			if r, ok := p.(*rtcp.CCFeedbackReport); ok {
-				reports <- r
+				reports <- handed{rep: r, at: project(r)}
 			}
 		}
 
@@ -204,14 +233,19 @@ func runAPI(ops []op) (c c08Case, fail *cq.ImplFailure) { //nolint:cyclop
 
 			continue
 		}
+		tk := o.T
+		if o.Tk != nil {
+			tk = *o.Tk // the ticker's value is not the configured clock's reading
+		}
 		select {
-		case tick.ch <- time.Unix(0, o.T):
+		case tick.ch <- time.Unix(0, tk):
 		case <-time.After(apiWait):
 			return c, hang(fmt.Sprintf("tick %d not taken by the loop", i))
 		}
 		select {
-		case r := <-reports:
-			c.Outs = append(c.Outs, project(r))
+		case h := <-reports:
+			kept = append(kept, h.rep)
+			c.Outs = append(c.Outs, h.at)
 		case <-time.After(apiWait):
 			return c, hang(fmt.Sprintf("no report written after tick %d", i))
 		}
@@ -228,8 +262,38 @@ func runAPI(ops []op) (c c08Case, fail *cq.ImplFailure) { //nolint:cyclop
 		return c, &cq.ImplFailure{Kind: "api", Detail: "report written without a tick", Case: c}
 	default:
 	}
+	for _, rep := range kept { // the queueing writer marshals now (the loop goroutine has ended)
+		c.Late = append(c.Late, project(rep))
+	}
 
 	return c, nil
+}
+
+// tickValue chooses what the mock ticker delivers on its channel when the mock
+// clock reads t: a real time.Ticker delivers the time the tick was scheduled on
+// the runtime's clock, which is neither the configured SenderNow clock nor the
+// moment the loop handles the tick.
+func tickValue(r *rand.Rand, t int64, arrivals []int64) (int64, string) {
+	switch r.Intn(8) {
+	case 0:
+		return t, "tick=clock"
+	case 1: // stale: scheduled up to two intervals before it is handled
+		return t - 1 - int64(r.Intn(200000))*1000, "tick-stale"
+	case 2: // ahead of the clock
+		return t + 1 + int64(r.Intn(200000))*1000, "tick-ahead"
+	case 3: // a 1/1024 s step or a few seconds away
+		return t + (int64(r.Intn(9))-4)*sec + (int64(r.Intn(5))-2)*atoUnit2/2, "tick-seconds-off"
+	case 4: // next to an arrival (earlier than packets that arrived before the report)
+		a := arrivals[r.Intn(len(arrivals))]
+
+		return a - 1 - int64(r.Intn(1000000)), "tick-before-an-arrival"
+	case 5: // another epoch: wall clock vs. a clock starting at zero, zero value
+		return []int64{0, 1, -1, 1790000000 * sec, 946684800 * sec}[r.Intn(5)], "tick-other-epoch"
+	case 6: // more than 8 s / 64 s away
+		return t - []int64{8, 9, 64, 65, 128}[r.Intn(5)]*sec - int64(r.Intn(1000)), "tick-far-stale"
+	default:
+		return t + 1 - 2*int64(r.Intn(2)), "tick-1ns-off"
+	}
 }
 
 // genAPI: an add first, ECN 0 everywhere, builds are ticks with the interceptor's fixed maximum size.
@@ -242,15 +306,20 @@ func genAPI(r *rand.Rand) ([]op, []string) {
 		if len(ops) < 2 {
 			continue
 		}
+		out := []string{"api"}
+		var arr []int64
 		for i := range ops {
 			switch ops[i].K {
 			case "add":
 				ops[i].ECN = 0
+				arr = append(arr, ops[i].T)
 			default:
 				ops[i].K, ops[i].Max = "build", 1200
+				tk, tag := tickValue(r, ops[i].T, arr)
+				ops[i].Tk = &tk
+				out = append(out, tag)
 			}
 		}
-		out := []string{"api"}
 		for _, t := range tags {
 			if t != "raw-budget" && t != "max-near-headers" && t != "max-small" {
 				out = append(out, t)
@@ -259,6 +328,19 @@ func genAPI(r *rand.Rand) ([]op, []string) {
 
 		return ops, out
 	}
+}
+
+func coqOuts(rs []repOut) []string {
+	outs := make([]string, len(rs))
+	for i, r := range rs {
+		bs := make([]string, len(r.Blocks))
+		for j, b := range r.Blocks {
+			bs[j] = cq.T(cq.ZU(uint64(b.SSRC)), cq.ZU(uint64(b.Begin)), cq.LZ(b.MBs))
+		}
+		outs[i] = cq.T(cq.ZU(uint64(r.RTS)), cq.Z(r.MLen), cq.L(bs))
+	}
+
+	return outs
 }
 
 func (c c08Case) coq() string {
@@ -273,16 +355,24 @@ func (c c08Case) coq() string {
 			ops[i] = cq.C("BuildRaw", cq.Z(o.T), cq.Z(o.Max))
 		}
 	}
-	outs := make([]string, len(c.Outs))
-	for i, r := range c.Outs {
-		bs := make([]string, len(r.Blocks))
-		for j, b := range r.Blocks {
-			bs[j] = cq.T(cq.ZU(uint64(b.SSRC)), cq.ZU(uint64(b.Begin)), cq.LZ(b.MBs))
+
+	var evs []string
+	if c.API { // events of the interceptor: clock setting before every packet / tick, ticker values
+		for _, o := range c.Ops {
+			evs = append(evs, cq.C("SNow", cq.Z(o.T)))
+			if o.K == "add" {
+				evs = append(evs, cq.C("SPacket", cq.ZU(uint64(o.SSRC)), cq.ZU(uint64(o.Seq))))
+			} else {
+				tk := o.T
+				if o.Tk != nil {
+					tk = *o.Tk
+				}
+				evs = append(evs, cq.C("STick", cq.Z(tk)))
+			}
 		}
-		outs[i] = cq.T(cq.ZU(uint64(r.RTS)), cq.Z(r.MLen), cq.L(bs))
 	}
 
-	return cq.T(cq.L(ops), cq.L(outs))
+	return cq.T(cq.L(ops), cq.L(coqOuts(c.Outs)), cq.L(coqOuts(c.Late)), cq.L(evs))
 }
 
 // buckets derived from what the implementation actually produced
@@ -298,6 +388,28 @@ func (c c08Case) buckets(extra ...string) []string {
 		}
 	}
 	set[fmt.Sprintf("k%d", len(ssrcs))] = true
+	// re-reading: a later block of the same stream that is not longer than an earlier one
+	// (a recycled buffer would fit), and one that is longer
+	maxN := map[uint32]int{}
+	for _, r := range c.Outs {
+		for _, b := range r.Blocks {
+			if m, ok := maxN[b.SSRC]; ok && len(b.MBs) > 0 {
+				if len(b.MBs) <= m {
+					set["reread:later-block-not-longer"] = true
+				} else {
+					set["reread:later-block-longer"] = true
+				}
+			}
+			if len(b.MBs) > maxN[b.SSRC] {
+				maxN[b.SSRC] = len(b.MBs)
+			} else if _, ok := maxN[b.SSRC]; !ok {
+				maxN[b.SSRC] = 0
+			}
+		}
+	}
+	if !reflect.DeepEqual(c.Outs, c.Late) {
+		set["reread:report-changed-after-hand-over"] = true
+	}
 	for _, r := range c.Outs {
 		for _, b := range r.Blocks {
 			n := len(b.MBs)
